@@ -166,7 +166,7 @@ Definition process_msop (bl : build) (crc_table : list Z) (v : drv) (th : thrott
         (* a bad block id is reported (unthrottled) when the loop reaches it, i.e. after the
            clouds split by earlier blocks of this packet *)
         let '(v1, th1, o1) := feed_blocks (with_dec v0 (mr_state r)) th0 now (mr_blocks r) in
-        let e := if mr_bad_blkid r && negb (d_blkid_err d =? 0) then [OErr (d_blkid_err d)] else [] in
+        let e := if mr_bad_blkid r then [OErr ERR_WRONGMSOPBLKID] else [] in
         (v1, th1, o0 ++ o1 ++ e, mr_ret r, mr_bytes r)
     | Mems =>
         let nsub := if d_n_sub d =? 0 then 1 else d_n_sub d in
